@@ -214,6 +214,20 @@ def check_case(ctx, case):
         etb = np.asarray(t[a].array.total_bounds, dtype=float).tolist()
         if not all((x != x and y != y) or x == y for x, y in zip(tbd, etb)):
             viol("spatial-op-wrong-column", "active-geometry:dask-total_bounds", etb, tbd)
+        # a selection that hits no partition at all is still a frame with this active geometry
+        with dask.config.set(scheduler="synchronous"):
+            ok_, rn, tb_ = ctx.guarded(lambda: (lambda q_: (
+                q_.geometry.name, q_.compute(),
+                [p_.geometry.name for p_ in dask.compute(*q_.to_delayed())]))(ddf.cx[10 ** 7:10 ** 7 + 1, 10 ** 7:10 ** 7 + 1]))
+        if not ok_:
+            rec_raise("dask-cx-no-partition", rn, tb_)
+        else:
+            ctx.count("state_checks")
+            if rn[0] != a or any(x != a for x in rn[2]) or len(rn[1]) != 0:
+                viol("active-changed", "active-geometry:dask-cx-hitting-no-partition", [a, 0],
+                     [rn[0], rn[2], len(rn[1])])
+            else:
+                check_state(rn[1], "dask-cx-no-partition-compute", a)
         # build_sindex keeps the active geometry of the collection and of its partitions
         with dask.config.set(scheduler="synchronous"):
             ok_, rb, tb_ = ctx.guarded(lambda: (lambda b_: (
